@@ -127,6 +127,135 @@ func (c *ctx) mapOrder() {
 		})
 	}
 	c.s.SetFact("genlint.map_ranges", n)
+	c.unorderedKeys()
+}
+
+// unorderedSource: a call whose result lists the keys of a hashed container in its iteration order.
+func unorderedSource(fn *types.Func) string {
+	if fn == nil {
+		return ""
+	}
+	full := fn.FullName()
+	switch {
+	case strings.HasSuffix(full, "typeutil.Map).Keys"):
+		return "typeutil.Map.Keys()"
+	case full == "maps.Keys" || full == "maps.Values" || full == "golang.org/x/exp/maps.Keys" || full == "golang.org/x/exp/maps.Values":
+		return full + "()"
+	case full == "(reflect.Value).MapKeys":
+		return "reflect.Value.MapKeys()"
+	}
+	return ""
+}
+
+// G1 (second half): the key list of a hashed container is ranged over directly (the loop body is checked above),
+// or bound to a local variable that is only ranged over or sorted before any other use. Returned, stored in a
+// field or passed on, it carries Go's randomised order to wherever it is read.
+func (c *ctx) unorderedKeys() {
+	c.eachCall(func(fc *fileCtx, call *ast.CallExpr, fn *types.Func) {
+		what := unorderedSource(fn)
+		if what == "" {
+			return
+		}
+		info := fc.pkg.TypesInfo
+		key := fmt.Sprintf("%s|use of %s %s", fc.funcName(call), what, astx.Short(call))
+		var parent ast.Node = fc.par[call]
+		for {
+			if p, ok := parent.(*ast.ParenExpr); ok {
+				parent = fc.par[p]
+				continue
+			}
+			break
+		}
+		switch p := parent.(type) {
+		case *ast.RangeStmt:
+			if astx.Unparen(p.X) == ast.Expr(call) {
+				c.s.OK("G1", key, c.pos(call), "ranged over directly; the loop body is checked")
+				return
+			}
+		case *ast.AssignStmt:
+			if len(p.Lhs) == 1 && len(p.Rhs) == 1 {
+				if id, ok := p.Lhs[0].(*ast.Ident); ok {
+					obj := astx.ObjOf(info, id)
+					if _, isVar := obj.(*types.Var); isVar && obj.Parent() != nil && obj.Parent() != fc.pkg.Types.Scope() {
+						if bad := c.keyListUses(fc, p, obj); bad == "" {
+							c.s.OK("G1", key, c.pos(call), "bound to a local that is only ranged over or sorted first")
+						} else {
+							c.s.Bad("G1", key, c.pos(call), bad+": generated output would depend on Go's randomised map order")
+						}
+						return
+					}
+				}
+			}
+		case *ast.CallExpr:
+			// len(m.Keys()) and the like
+			if astx.IsBuiltin(info, p, "len") {
+				c.s.OK("G1", key, c.pos(call), "only counted")
+				return
+			}
+		}
+		c.s.Bad("G1", key, c.pos(call), "the key list of a hashed container leaves the function (or is consumed) in iteration order: generated output would depend on Go's randomised map order")
+	})
+}
+
+// keyListUses: every use of obj after its definition at def is a range operand, a len, or comes after an
+// unconditional sort of obj.
+func (c *ctx) keyListUses(fc *fileCtx, def *ast.AssignStmt, obj types.Object) string {
+	info := fc.pkg.TypesInfo
+	fd := fc.funcDecl(def)
+	if fd == nil {
+		return "key list bound outside a function"
+	}
+	var uses []*ast.Ident
+	ast.Inspect(fd.Body, func(n ast.Node) bool {
+		if id, ok := n.(*ast.Ident); ok && info.Uses[id] == obj {
+			uses = append(uses, id)
+		}
+		return true
+	})
+	sortedFrom := token.Pos(0)
+	for _, id := range uses {
+		if call, ok := fc.par[id].(*ast.CallExpr); ok && len(call.Args) > 0 && call.Args[0] == ast.Expr(id) {
+			if fn := astx.Callee(info, call); fn != nil && sortFuncs[fn.FullName()] && len(fc.par.Known(call, fd)) <= len(fc.par.Known(def, fd)) {
+				if sortedFrom == 0 || call.End() < sortedFrom {
+					sortedFrom = call.End()
+				}
+			}
+		}
+	}
+	for _, id := range uses {
+		if sortedFrom != 0 && id.Pos() > sortedFrom {
+			continue
+		}
+		switch p := fc.par[id].(type) {
+		case *ast.RangeStmt:
+			if p.X == ast.Expr(id) {
+				continue
+			}
+		case *ast.CallExpr:
+			if astx.IsBuiltin(info, p, "len") {
+				continue
+			}
+			if fn := astx.Callee(info, p); fn != nil && sortFuncs[fn.FullName()] && len(p.Args) > 0 && p.Args[0] == ast.Expr(id) {
+				continue
+			}
+		case *ast.AssignStmt:
+			reassigned := false
+			for _, l := range p.Lhs {
+				if l == ast.Expr(id) {
+					reassigned = true
+				}
+			}
+			if reassigned {
+				return "the local " + id.Name + " holding the key list is assigned again"
+			}
+		}
+		where := fmt.Sprintf("%T", fc.par[id])
+		if e, ok := fc.par[id].(ast.Expr); ok {
+			where = astx.Short(e)
+		}
+		return "the key list in " + id.Name + " is used in iteration order (" + where + ")"
+	}
+	return ""
 }
 
 func declOf(fc *fileCtx, o types.Object) *ast.Ident {
